@@ -50,6 +50,7 @@ type c06Case struct {
 	WL       string   `json:"whitelist_kind"`
 	Entries  []string `json:"whitelist"`
 	Input    string   `json:"input_quoted"`
+	Template string   `json:"input_template,omitempty"` // configuration-host targets: the template the input was made from (what --replay drives)
 	Base     string   `json:"base_url_of_request"`
 	Status   int      `json:"status"`
 	Where    string   `json:"where,omitempty"`
@@ -198,6 +199,7 @@ const (
 
 type c06Ctx struct {
 	WL    c06WL
+	Rich  bool     // the "configuration-rich" variant: named IdP / redirect-url / cookie-domain / second upstream / redis (c06_confighosts.go)
 	Idx   int      // index in c06WLs
 	H     *vfProxy // htpasswd form login, plain state — lives in the long-lived world W0 (inotify instances are scarce)
 	A     *vfProxy // plain state
@@ -231,6 +233,16 @@ func c06CacheIDToken(w *vfWorld) {
 	})
 }
 
+// flagsFor: the whitelist flags plus, for the configuration-rich variant, the flags that put further host names into the
+// configuration of an instance living in world w.
+func (cx *c06Ctx) flagsFor(w *vfWorld) []string {
+	f := cx.wlFlags()
+	if cx.Rich {
+		f = append(f, c06RichFlags(w)...)
+	}
+	return f
+}
+
 func (cx *c06Ctx) wlFlags() []string {
 	f := []string{"--insecure-oidc-skip-nonce=true"}
 	empty := false
@@ -254,11 +266,13 @@ func (cx *c06Ctx) checkWL(p *vfProxy) error {
 }
 
 // c06NewCtx creates the long-lived htpasswd instance in w0; Rotate creates the login instances.
-func c06NewCtx(w0 *vfWorld, wl c06WL) (*c06Ctx, error) {
-	cx := &c06Ctx{WL: wl}
+func c06NewCtx(w0 *vfWorld, wl c06WL) (*c06Ctx, error) { return c06NewCtxV(w0, wl, false) }
+
+func c06NewCtxV(w0 *vfWorld, wl c06WL, rich bool) (*c06Ctx, error) {
+	cx := &c06Ctx{WL: wl, Rich: rich}
 	ht := w0.File("htpasswd-"+wl.Kind, c06HtpasswdLine(c06User, c06Pass))
 	var err error
-	if cx.H, err = w0.NewProxy(append(cx.wlFlags(), "--htpasswd-file="+ht)...); err != nil {
+	if cx.H, err = w0.NewProxy(append(cx.flagsFor(w0), "--htpasswd-file="+ht)...); err != nil {
 		return nil, err
 	}
 	if err := cx.checkWL(cx.H); err != nil {
@@ -287,14 +301,19 @@ func (cx *c06Ctx) Rotate(t testing.TB) error {
 	c06CacheIDToken(w)
 	cx.LW = w
 	var err error
-	if cx.A, err = w.NewProxy(cx.wlFlags()...); err != nil {
+	if cx.A, err = w.NewProxy(cx.flagsFor(w)...); err != nil {
 		return err
 	}
-	if cx.B, err = w.NewProxy(append(cx.wlFlags(), "--reverse-proxy=true", "--encode-state=true")...); err != nil {
+	if cx.B, err = w.NewProxy(append(cx.flagsFor(w), "--reverse-proxy=true", "--encode-state=true")...); err != nil {
 		return err
 	}
-	if cx.C, err = w.NewProxy(append(cx.wlFlags(), "--skip-provider-button=true", "--code-challenge-method=S256")...); err != nil {
+	if cx.C, err = w.NewProxy(append(cx.flagsFor(w), "--skip-provider-button=true", "--code-challenge-method=S256")...); err != nil {
 		return err
+	}
+	for _, p := range []*vfProxy{cx.A, cx.B, cx.C} {
+		if err := cx.checkWL(p); err != nil {
+			return err
+		}
 	}
 	return nil
 }
@@ -306,10 +325,27 @@ func (cx *c06Ctx) Close() {
 	}
 }
 
+// c06AuthEP: the authorization endpoint the instance is configured with: --login-url when given (static endpoints, a NAMED
+// IdP host), else the one the world's IdP publishes in its discovery document.
 func c06AuthEP(p *vfProxy) (string, c06Base) {
+	if lu := c06FlagValue(p, "--login-url"); lu != "" {
+		if u, err := url.Parse(lu); err == nil && u.Host != "" {
+			b, _ := c06ParseBase(u.Scheme, u.Host)
+			return lu, b
+		}
+	}
 	iss := p.W.IdP.Issuer
 	b, _ := c06ParseBase("http", strings.TrimPrefix(iss, "http://"))
 	return iss + "/authorize", b
+}
+
+// c06Authorize plays the IdP's authorization endpoint for a login start of p. With a named --login-url no traffic reaches
+// that name: the rig's IdP is what "DNS" resolves it to.
+func c06Authorize(p *vfProxy, loginURL string) (string, *vfAuthReq, error) {
+	if lu := c06FlagValue(p, "--login-url"); lu != "" && strings.HasPrefix(loginURL, lu+"?") {
+		loginURL = p.W.IdP.Issuer + "/authorize" + loginURL[len(lu):]
+	}
+	return p.W.IdP.Authorize(loginURL, vfStdIdentity)
 }
 
 // ---------------------------------------------------------------------------------------------------------
@@ -496,7 +532,7 @@ func (cx *c06Ctx) finishLogin(a *c06Acc, ch, in string, base c06Base, p *vfProxy
 		a.eval("")
 		return
 	}
-	code, ar, err := p.W.IdP.Authorize(startResp.Location(), vfStdIdentity)
+	code, ar, err := c06Authorize(p, startResp.Location())
 	if err != nil {
 		a.count("idp_authorize_errors", 1)
 		a.eval("")
@@ -547,7 +583,16 @@ func (cx *c06Ctx) startLogin(p *vfProxy, host string, encoded bool) (*c06Started
 }
 
 type c06State struct {
-	sA, sB *c06Started
+	sA, sB  *c06Started
+	hashKey string // configuration-host targets: the template, so that hash-chosen variants do not depend on a random port
+}
+
+// key: what hash-chosen variants of a channel (front host of the X-Forwarded channels, plain/base64 failed callback) go by.
+func (st *c06State) key(in string) string {
+	if st != nil && st.hashKey != "" {
+		return st.hashKey
+	}
+	return in
 }
 
 func (cx *c06Ctx) editedCallback(a *c06Acc, ch, in string, p *vfProxy, host string, st **c06Started, encoded bool) {
@@ -560,7 +605,7 @@ func (cx *c06Ctx) editedCallback(a *c06Acc, ch, in string, p *vfProxy, host stri
 		}
 		*st = s
 	}
-	code, _, err := p.W.IdP.Authorize((*st).LoginURL, vfStdIdentity)
+	code, _, err := c06Authorize(p, (*st).LoginURL)
 	if err != nil {
 		a.count("idp_authorize_errors", 1)
 		a.eval("")
@@ -599,7 +644,7 @@ func c06IsCBFail(ch string) bool { return strings.HasPrefix(ch, "cbfail-") }
 
 func (cx *c06Ctx) cbFail(a *c06Acc, ch, in string, st *c06State) (bool, bool) {
 	encoded := strings.HasSuffix(ch, "-b64")
-	if ((c06Hash(in)>>9)+uint64(cx.Idx))&1 == 1 != encoded {
+	if ((c06Hash(st.key(in))>>9)+uint64(cx.Idx))&1 == 1 != encoded {
 		return false, false
 	}
 	p, started := cx.A, &st.sA
@@ -621,7 +666,7 @@ func (cx *c06Ctx) cbFail(a *c06Acc, ch, in string, st *c06State) (bool, bool) {
 		if mode == "redeem" {
 			nonce = (*started).Nonce
 		} else {
-			c, _, err := p.W.IdP.Authorize((*started).LoginURL, vfStdIdentity)
+			c, _, err := c06Authorize(p, (*started).LoginURL)
 			if err != nil {
 				a.count("idp_authorize_errors", 1)
 				return false, false
@@ -684,8 +729,16 @@ func c06XFHost(in string) string {
 	return "front.test"
 }
 
-// drive delivers `in` through channel ch and judges the outcome. It returns (kept, delivered).
+// drive delivers `in` through channel ch and judges the outcome. It returns (kept, delivered). A configuration-host
+// template (c06_confighosts.go) is first made concrete for the instance the channel addresses.
 func (cx *c06Ctx) drive(a *c06Acc, ch, in string, st *c06State) (bool, bool) {
+	if c06IsCfgTemplate(in) {
+		return cx.driveCfg(a, ch, in, st)
+	}
+	return cx.drive1(a, ch, in, st)
+}
+
+func (cx *c06Ctx) drive1(a *c06Acc, ch, in string, st *c06State) (bool, bool) {
 	esc := vfQueryEscape(in)
 	form := func(pass string) *vfReq {
 		return vfNewReq("POST", "/oauth2/sign_in").WithBody("application/x-www-form-urlencoded", []byte("username="+c06User+"&password="+pass+"&rd="+esc))
@@ -746,7 +799,7 @@ func (cx *c06Ctx) drive(a *c06Acc, ch, in string, st *c06State) (bool, bool) {
 		}
 		return simple(cx.H, cx.BaseA, vfGET(in))
 	case "xf-so", "xf-so-rd", "xf-start":
-		h := c06XFHost(in)
+		h := c06XFHost(st.key(in))
 		base, ok := c06ParseBase("https", h)
 		if !ok {
 			return false, false
